@@ -650,8 +650,8 @@ def check(ctx, res):
         small = (enum_small(SMALL_D, 4, 2, 0) + enum_small(SMALL_E, 4, 2, 300000) + enum_small(SMALL_T, 4, 2, 400000)
                  + enum_small(SMALL_A, 4, 2, 500000, SMALL_PORTS_PLAIN))
     else:
-        small = (enum_small(SMALL_A, 7, 2, 0) + enum_small(SMALL_B, 6, 2, 100000) + enum_small(SMALL_D, 4, 2, 200000)
-                 + enum_small(SMALL_C, 5, 2, 250000) + enum_small(SMALL_E, 5, 2, 300000) + enum_small(SMALL_T, 6, 2, 400000)
+        small = (enum_small(SMALL_A, 7, 2, 0) + enum_small(SMALL_B, 5, 2, 100000) + enum_small(SMALL_D, 4, 2, 200000)
+                 + enum_small(SMALL_C, 5, 2, 250000) + enum_small(SMALL_E, 5, 2, 300000) + enum_small(SMALL_T, 5, 2, 400000)
                  + enum_small(SMALL_A, 6, 2, 500000, SMALL_PORTS_PLAIN))
     batches(ctx, res, small, stats, seen, 'small', chunk=4000)
     res['exhaustive'] = True
@@ -661,8 +661,8 @@ def check(ctx, res):
             ('4', ', Reset w, CancelWaitingReader w, Disable w, Enable w; with a driver timeout; with API values toggling over '
              '{0,1}; with a driver whose methods return futures', len(small))
             if ctx.tier == 'quick' else
-            ('7 (<= 6 with Reset w; <= 5 with CancelWaitingReader w; <= 4 with Disable/Enable w; <= 5 with a driver timeout; '
-             '<= 6 with API values toggling over {0,1}; <= 6 with a driver whose methods return futures)', '', len(small))))
+            ('7 (<= 5 with Reset w; <= 5 with CancelWaitingReader w; <= 4 with Disable/Enable w; <= 5 with a driver timeout; '
+             '<= 5 with API values toggling over {0,1}; <= 6 with a driver whose methods return futures)', '', len(small))))
     n = ctx.n(400, 20000)
     scheds = [gen_schedule(ctx.rng, i) for i in range(n)]
     batches(ctx, res, scheds, stats, seen, 'rand')
